@@ -34,9 +34,9 @@ type G struct {
 	resume chan struct{}
 	spawn  int
 	consec int
-	// Held is the set of shim locks currently owned by this goroutine
-	// (value = acquisition count, for RLock).
-	Held map[any]int
+	// Held is the multiset of shim locks currently owned by this goroutine
+	// (a slice, not a map: runtime map code is visible to the race detector).
+	Held []any
 	// OnBlock, when set, is consulted by nobody but harness code.
 	Tag string
 }
@@ -90,14 +90,19 @@ type Sim struct {
 	cur    *G
 	last   string
 	gmu    sync.Mutex
-	gs     map[uint64]*G
-	all    map[string]*G
+	gs     []gEntry // live goroutines (goid -> G); linear scan, guarded by gmu under raceOff
+	all    []*G
 	res    Result
 	hash   uint64
 	abort  bool
 	mainDone bool
 	// SeqNo is a global event sequence number handed out by Stamp().
 	seq uint64
+}
+
+type gEntry struct {
+	id uint64
+	g  *G
 }
 
 // Debug, if set, is called at controller decisions (debugging aid).
@@ -148,27 +153,55 @@ func Stamp() uint64 { S.seq++; return S.seq }
 //go:norace
 func self() *G {
 	id := goid()
+	var g *G
+	raceOff()
 	S.gmu.Lock()
-	g := S.gs[id]
+	for i := range S.gs {
+		if S.gs[i].id == id {
+			g = S.gs[i].g
+			break
+		}
+	}
 	S.gmu.Unlock()
+	raceOn()
 	return g
 }
 
 //go:norace
 func register(g *G) {
 	id := goid()
+	raceOff()
 	S.gmu.Lock()
-	S.gs[id] = g
-	S.all[g.ID] = g
+	S.gs = append(S.gs, gEntry{id, g})
+	S.all = append(S.all, g)
 	S.gmu.Unlock()
+	raceOn()
 }
 
 //go:norace
 func unregister() {
 	id := goid()
+	raceOff()
 	S.gmu.Lock()
-	delete(S.gs, id)
+	for i := range S.gs {
+		if S.gs[i].id == id {
+			S.gs[i] = S.gs[len(S.gs)-1]
+			S.gs = S.gs[:len(S.gs)-1]
+			break
+		}
+	}
 	S.gmu.Unlock()
+	raceOn()
+}
+
+//go:norace
+func liveCount() int {
+	raceOff()
+	S.gmu.Lock()
+	n := len(S.gs)
+	S.gmu.Unlock()
+	raceOn()
+	return n
 }
 
 //go:norace
@@ -288,7 +321,7 @@ func Go(fn func()) {
 		id = p.ID + "." + strconv.Itoa(p.spawn)
 		p.spawn++
 	}
-	child := &G{ID: id, state: stNew, resume: make(chan struct{}), Held: map[any]int{}}
+	child := &G{ID: id, state: stNew, resume: make(chan struct{})}
 	go func() {
 		register(child)
 		defer finish(child)
@@ -366,13 +399,7 @@ func Steps() int { return S.res.Steps }
 // HeldBy returns a description of the locks held by goroutine id.
 //
 //go:norace
-func HeldCount(g *G) int {
-	n := 0
-	for _, c := range g.Held {
-		n += c
-	}
-	return n
-}
+func HeldCount(g *G) int { return len(g.Held) }
 
 // Run executes main under the scheduler.  It must be called inside a synctest bubble.
 //
@@ -385,28 +412,27 @@ func Run(cfg Config, main func()) Result {
 		cfg.IdleLimit = 2 * time.Hour
 	}
 	S = Sim{Active: true, cfg: cfg, rng: cfg.Seed ^ 0x5851F42D4C957F2D,
-		events: make(chan event, 1<<16), gs: map[uint64]*G{}, all: map[string]*G{}}
+		events: make(chan event, 1<<16)}
 	S.hash = 14695981039346656037
 	if cfg.TraceOn {
 		S.res.Points = map[string]int{}
 	}
 	start := time.Now()
-	root := &G{ID: "0", state: stNew, resume: make(chan struct{}), Held: map[any]int{}}
+	root := &G{ID: "0", state: stNew, resume: make(chan struct{})}
 	go func() {
 		register(root)
 		defer finish(root)
 		root.park()
 		main()
 	}()
-	parked := map[string]*G{}
+	var parked []*G
 	take := func(ev event) {
 		if ev.done {
 			if ev.g == root {
 				S.mainDone = true
 			}
-			delete(parked, ev.g.ID)
 		} else {
-			parked[ev.g.ID] = ev.g
+			parked = append(parked, ev.g)
 		}
 	}
 	for {
@@ -427,10 +453,7 @@ func Run(cfg Config, main func()) Result {
 		if S.abort {
 			break
 		}
-		S.gmu.Lock()
-		live := len(S.gs)
-		S.gmu.Unlock()
-		if S.mainDone && live == 0 {
+		if S.mainDone && liveCount() == 0 {
 			break
 		}
 		if cfg.StepBudget > 0 && S.res.Steps >= cfg.StepBudget {
@@ -464,14 +487,15 @@ func Run(cfg Config, main func()) Result {
 			raceOn()
 			continue
 		}
-		ids := make([]string, 0, len(parked))
-		for id := range parked {
-			ids = append(ids, id)
+		for i := 1; i < len(parked); i++ { // insertion sort by deterministic id
+			for j := i; j > 0 && parked[j].ID < parked[j-1].ID; j-- {
+				parked[j], parked[j-1] = parked[j-1], parked[j]
+			}
 		}
-		sort.Strings(ids)
-		pick := ids[Intn(len(ids))]
-		g := parked[pick]
-		delete(parked, pick)
+		pi := Intn(len(parked))
+		g := parked[pi]
+		pick := g.ID
+		parked = append(parked[:pi], parked[pi+1:]...)
 		S.res.Steps++
 		if pick != S.last {
 			S.res.Switches++
@@ -490,6 +514,7 @@ func Run(cfg Config, main func()) Result {
 		raceOn()
 	}
 	if S.res.Deadlock || S.res.Budget {
+		raceOff()
 		S.gmu.Lock()
 		for _, g := range S.all {
 			if g.state == stBlocked || g.state == stParked {
@@ -501,6 +526,7 @@ func Run(cfg Config, main func()) Result {
 			}
 		}
 		S.gmu.Unlock()
+		raceOn()
 		sort.Strings(S.res.Blocked)
 	}
 	S.res.TraceHash = S.hash
